@@ -1663,7 +1663,7 @@ pub(crate) fn t_ris(c: TCfg) {
     kv_assert!(!s.app_keys, "[C19] after RIS the cursor-key mode is reset");
     kv_assert!(s.top == 0 && s.bottom == rows - 1, "[C19] after RIS the margins span the full screen");
     let d = ctx_of(&SavedCtx::default());
-    kv_assert!(s.saved == d && s.alt_saved == d, "[C19] after RIS both screens' saved contexts are empty");
+    kv_assert!(s.saved == d && s.alt_saved == d, "[C19][C17] after RIS both screens' saved contexts are the power-on defaults (nothing saved)");
     kv_assert!(!s.alt, "[C19] after RIS the primary screen is showing");
     kv_assert!(s.len == rows && s.other_len == rows && s.other_rows == rows, "[C19] after RIS the scrollback is empty and both screens have the current size");
     kv_assert!(!s.trim_needed && !s.other_trim_needed, "[C19] after RIS nothing is pending for trimming");
